@@ -4,7 +4,7 @@ Spec: spec/ListSeq.tla (+ MCListSeq.tla, TraceListSeq.tla).
 S->I: TLC enumerates every behaviour of ListSeq up to a length bound from four
       initial configurations (plus seeded random walks); each behaviour carries the
       specified observation and live-element count per step and is replayed into
-      roto::List<T> (Rust API), compiled scripts, and alternating, for six element
+      roto::List<T> (Rust API), compiled scripts, and alternating, for seven element
       kinds; observations are compared step by step.
 I->S: long seeded random histories (growth across 8/16/../1024) are executed on the
       real lists; the recorded events must be a behaviour of ListSeq (TLC trace
@@ -17,7 +17,7 @@ import vlib
 from vlib import Evidence, Verdicts, run_tlc, require_tlc_ok, require_coverage
 
 PID = "C15"
-KINDS = ["u8", "u64", "string", "list", "tr24", "tr0"]
+KINDS = ["u8", "u64", "optu64", "string", "list", "tr24", "tr0"]
 ROUTES = ["rust", "script", "alt"]
 HUGE = 1000000
 OPNAMES = ["new", "from_vec", "push", "get", "len", "is_empty", "capacity", "swap", "concat",
@@ -290,7 +290,7 @@ def run(tier):
     verd = Verdicts(PID)
     vlib.build_harness(["c15"])
     ev.rule = ("cases = behaviours of ListSeq emitted by TLC (all behaviours up to the length bound from 4 initial "
-               "configurations + seeded simulation walks), each replayed for 6 element kinds x 3 routes; distinct = "
+               "configurations + seeded simulation walks), each replayed for 7 element kinds (one whose stored form differs from the Rust type: Option<u64>) x 3 routes; distinct = "
                "distinct (behaviour, kind, route); non-trivial = behaviour contains at least one mutation "
                "(push/swap/concat/iter_push/from_vec) followed by an observation")
     cases2, exh2 = generate_cases(tier, ev, [0, 1], "v2")
